@@ -4,9 +4,12 @@ package snowflake_client
 
 import (
 	"errors"
+	"io"
+	"net"
 	"time"
 
 	"github.com/pion/webrtc/v3"
+	"github.com/xtaci/smux"
 
 	"git.torproject.org/pluggable-transports/snowflake.git/v2/common/event"
 	"git.torproject.org/pluggable-transports/snowflake.git/v2/internal/verifapi"
@@ -322,5 +325,62 @@ func VerifC15_FailedRendezvous() {
 		verifapi.Cover("attempt succeeded")
 		verifapi.Assert(verifDCOpens, "a peer is only returned once its data channel opened")
 		verifapi.Assert(!peer.Closed(), "a returned peer is open")
+	}
+}
+
+// ---- SnowflakeConn.Close: every part is shut down whatever the other parts report ---------------
+
+var (
+	verifStreamClosed, verifSessClosed, verifPconnClosed int
+)
+
+func verifStreamClose(s *smux.Stream) error {
+	verifStreamClosed++
+	if verifapi.Bool("stream.closeFails") { // e.g. the session already died on its own
+		return io.ErrClosedPipe
+	}
+	return nil
+}
+func verifSessClose(s *smux.Session) error {
+	verifSessClosed++
+	if verifapi.Bool("session.closeFails") {
+		return io.ErrClosedPipe
+	}
+	return nil
+}
+func verifStreamID(s *smux.Stream) uint32 { return 1 }
+
+type verifPacketConn struct{ net.PacketConn }
+
+func (verifPacketConn) Close() error {
+	verifPconnClosed++
+	if verifapi.Bool("pconn.closeFails") {
+		return io.ErrClosedPipe
+	}
+	return nil
+}
+
+func VerifC15_ConnClose() {
+	t := &verifTongue{max: 1}
+	p, _ := NewPeers(t)
+	a, err := p.Collect()
+	verifapi.Assume(err == nil)
+	conn := &SnowflakeConn{Stream: new(smux.Stream), sess: new(smux.Session), pconn: verifPacketConn{}, snowflakes: p}
+	conn.Close()
+	verifapi.Cover("connection closed")
+	melted := false
+	select {
+	case <-p.Melted():
+		melted = true
+	default:
+	}
+	verifapi.Assert(melted, "closing the connection stops the collection of peers, whatever the stream or session report")
+	verifapi.Assert(a.Closed(), "closing the connection closes every peer it holds")
+	before := t.catches
+	_, err = p.Collect()
+	verifapi.Assert(err != nil && t.catches == before, "no further rendezvous attempt after the connection was closed")
+	if verifapi.Bool("closeAgain") {
+		conn.Close()
+		verifapi.Cover("connection closed twice")
 	}
 }
